@@ -7,6 +7,8 @@ re-read from the working tree on every check (called by tools/gen_params.py).
   gc_null_first      does GC_Sweep's finaliser loop clear freelist[i] before finalising it?
   gc_mitems_rule_ok  both threshold updates read  nitems + nitems / 2 + 1
   gc_set_shape_ok    GC_Set: running test, nitems++, bounds, Resize_More, Set_Ptr, `nitems > mitems`
+                     (an early return while a sweep is running, `gc->freelist isnt NULL`, is accepted:
+                     the model has no allocation inside a sweep, outside one the freelist is NULL)
   gc_rem_shape_ok    GC_Rem: running test, Rem_Ptr, Resize_Less, mitems
   gc_sweep_shape_ok  GC_Sweep: compaction loop with `continue` and no i++ after a removal,
                      mark-clearing loop, Resize_Less, mitems, finaliser loop
@@ -74,6 +76,7 @@ def generate(repo, emit, src, func_body):
         r'if\s*\(\s*not\s+gc->running\s*\)\s*\{\s*return;\s*\}\s*gc->nitems\+\+;\s*'
         r'gc->maxptr\s*=[^;]*;\s*gc->minptr\s*=[^;]*;\s*GC_Resize_More\(gc\);\s*'
         r'GC_Set_Ptr\(gc,\s*key,\s*\(bool\)c_int\(val\)\);\s*'
+        r'(?:if\s*\(\s*gc->freelist\s+isnt\s+NULL\s*\)\s*\{\s*return;\s*\}\s*)?'   # no threshold collection inside a sweep
         r'if\s*\(\s*gc->nitems\s*>\s*gc->mitems\s*\)\s*\{\s*GC_Mark\(gc\);\s*GC_Sweep\(gc\);\s*\}', st)
     emit('gc_set_shape_ok', 'Definition gc_set_shape_ok : bool := true.' if ok else None)
 
